@@ -30,10 +30,37 @@ T_STL = [(r'^std::string$|^std::basic_string<char>$', 'struct nv_string'), (r'^s
 T_IN = T_STL + [(r'basic_istream<char|^std::istream$|basic_ios<char', 'struct nv_istream')] + T_COMMON
 T_OUT = [(r'^std::string_view$|basic_string_view<char', 'struct nv_sv'), (r'basic_ostream<char|^std::ostream$|basic_ios<char', 'struct nv_ostream')] + T_COMMON
 
+def int_muldiv_hook(P, n):
+    """int64 `a * b`, `a *= b` and `a / b` with a non-constant divisor print as nv_imul / nv_idiv: the product and the quotient
+    are UNINTERPRETED in CBMC (64-bit multipliers / dividers cannot be bit-blasted, DESIGN 2.4); what the code relies on
+    (the division guard implies an exact, bounded product) is the SMT lemma guard_rank*; nv_idiv asserts a non-zero divisor"""
+    from cxx2c import strip_cv, qual, unwrap
+    k = n.get('kind')
+    if k not in ('BinaryOperator', 'CompoundAssignOperator') or strip_cv(qual(n['type'])) not in ('long', 'nano::tensor_size_t'):
+        return None
+    op = n.get('opcode')
+    a, b = n['inner']
+    core = b
+    while core.get('kind') in ('ImplicitCastExpr', 'CXXStaticCastExpr', 'ParenExpr', 'ConstantExpr') and core.get('inner'):
+        core = core['inner'][0]
+    if op == '/' and core.get('kind') not in ('UnaryExprOrTypeTraitExpr', 'IntegerLiteral'):
+        P.note('int64 a / b -> nv_idiv (uninterpreted, divisor asserted non-zero)')
+        return f'nv_idiv({P.expr(a)}, {P.expr(b)})'
+    if op == '*':
+        P.note('int64 a * b -> nv_imul (uninterpreted)')
+        return f'nv_imul({P.expr(a)}, {P.expr(b)})'
+    if op == '*=':
+        P.note('int64 a *= b -> nv_imul (uninterpreted)')
+        lhs = P.expr(a)
+        return f'({lhs} = nv_imul({lhs}, {P.expr(b)}))'
+    return None
+
+
 # ------------------------------------------------------------------------------------------------ call maps (reader)
 # functions returning std::istream& print as functions returning a pointer: a call denotes the object -> (*f(...))
 # `tdims dims;` is a default-initialised std::array: indeterminate values, not zeros
 C_IN = [(r'^ctor\|.*(tdims|std::array<long, \d+>)\|', '@nondet'),
+        (r'^max\|long \(\) noexcept', '(INT64_MAX)'), (r'^operator\[\]\|std::array<long, \d+>::(const_)?reference', '{0}.d[{1}]'),
         (r'^read\|std::istream &\(std::istream &, unsigned int &\)', '(*read_u32({&0}, {&1}))'),
         (r'^read\|std::istream &\(std::istream &, int &\)', '(*read_i32({&0}, {&1}))'),
         (r'^read\|std::istream &\(std::istream &, unsigned long &\)', '(*read_u64({&0}, {&1}))'),
@@ -82,7 +109,8 @@ def hash_version(): return Fn('hash_version', TU, 'hash_version', flt='nano::det
 
 
 # ------------------------------------------------------------------------------------------------ call maps (writer)
-C_OUT = [(r'^write\|std::ostream &\(std::ostream &, const char \*, const unsigned long\)', '(*write_ptr_char({&0}, {1}, {2}))'),
+C_OUT = [(r'^max\|int \(\) noexcept', '(INT32_MAX)'), (r'^operator\[\]\|std::array<long, \d+>::(const_)?reference', '{0}.d[{1}]'),
+         (r'^write\|std::ostream &\(std::ostream &, const char \*, const unsigned long\)', '(*write_ptr_char({&0}, {1}, {2}))'),
          (r'^write\|std::ostream &\(std::ostream &, unsigned int\)', '(*write_u32({&0}, {1}))'),
          (r'^write\|std::ostream &\(std::ostream &, int\)', '(*write_i32({&0}, {1}))'),
          (r'^write\|std::ostream &\(std::ostream &, unsigned long\)', '(*write_u64({&0}, {1}))'),
@@ -155,7 +183,7 @@ def hash_fn(cname, scalar):
 
 
 def tensor_read(cname, scalar, rank):
-    return Fn(cname, TU, 'read', flt='nano::read', select=targs('?', scalar, str(rank)), **IN)
+    return Fn(cname, TU, 'read', flt='nano::read', select=targs('?', scalar, str(rank)), hooks=[int_muldiv_hook], **IN)
 
 
 CADICAL = ['--sat-solver', 'cadical']
@@ -192,6 +220,27 @@ def lemma_vcs():
         out.append(VC(f'lemma/roundtrip_rank{rank}: reading a written tensor consumes exactly what was written and yields its dims',
                       common + '(assert (= lenP lenV))\n(assert (not (and (= used lenV) ' + ' '.join(f'(= e{k} d{k})' for k in ks) + ')))',
                       group='lemma', about='field sequence symmetry + int32 narrowing is lossless for dims < 2^31'))
+    # the arithmetic lemma that nv_tensor_resize assumes on the terms of the reader's guard loop (repair 81b3596): nv_imul / nv_idiv
+    # are uninterpreted in CBMC; here they are the integers' * and div.  By induction on k the machine products are the
+    # mathematical ones (t_1 = d_0; t_k exact and guard k  =>  t_{k+1} <= M fits), so one VC over the mathematical t_k suffices.
+    for rank in (1, 2, 3, 4):
+        for S in (8, 1):
+            M = (2 ** 63 - 1) // S
+            ds = ''.join(f'(declare-const d{k} Int)' for k in range(rank))
+            ts = ['1']
+            for k in range(rank):
+                ts.append(f'(* {ts[-1]} d{k})')
+            rng = ''.join(f'(assert (and (<= (- 9223372036854775808) d{k}) (<= d{k} 9223372036854775807)))' for k in range(rank))
+            guards = ''.join(f'(assert (and (>= d{k} 0) (not (and (> d{k} 0) (> {ts[k]} (div {M} d{k}))))))' for k in range(rank))
+            right = 'd%d' % (rank - 1)
+            for k in range(rank - 2, -1, -1):
+                right = f'(* d{k} {right})'
+            concl = ' '.join(f'(<= 0 {ts[k + 1]}) (<= {ts[k + 1]} {M})' for k in range(rank)) + f' (= {right} {ts[rank]})'
+            out.append(VC(f'lemma/guard_rank{rank}_sizeof{S}: dims that pass the division guard have an exact product <= max_size, every running product fits',
+                          ds + '\n' + rng + '\n' + guards + f'\n(assert (not (and {concl})))', group='lemma',
+                          about='discharges the arithmetic assumption of nv_tensor_resize (uninterpreted * and / in CBMC)'))
+        out.append(VC(f'lemma/guard_rank{rank}: vacuity guard (some dims pass the guard)', ds + '\n' + rng + '\n' + guards + '\n(assert (> d0 1))', group='lemma',
+                      expect='sat', about='vacuity guard (must be sat)'))
     return out
 
 
@@ -203,7 +252,7 @@ def build(tier):
         Target('read_u32', [read_u32()], P),
         Target('read_u64', [read_u64()], P),
         Target('read_cast_i32_i64', [read_cast1(), read_i32()], P),
-        Target('read_cast_n', [read_castn(), read_cast1(), read_i32()], P),
+        Target('read_cast_n', [read_castn(), read_cast1(), read_i32()], P, timeout=240),   # the hardest SAT instance (20 s alone): survives a loaded machine
         Target('read_ptr_f64', [rd_ptr('read_ptr_f64', 'double')], P),
     ]
     NOCONV = ['--bounds-check', '--pointer-check', '--div-by-zero-check', '--signed-overflow-check', '--pointer-overflow-check']
@@ -242,10 +291,10 @@ def build(tier):
     for tag, scalar, rank in INST:
         pre = f'{D}tensor_{tag}_{rank}.h'
         deps = lambda: [read_u32(), read_u64(), read_castn(), read_cast1(), read_i32(), rd_ptr('read_ptr_' + tag, scalar), hash_version()]
-        targets.append(Target(f'tensor_read_{tag}_{rank}', [tensor_read('tensor_read', scalar, rank)] + deps(), pre, loops=0, unwind=NV_UNWIND, cbmc_flags=CADICAL))
+        targets.append(Target(f'tensor_read_{tag}_{rank}', [tensor_read('tensor_read', scalar, rank)] + deps(), pre, loops=0, unwind=NV_UNWIND, cbmc_flags=CADICAL, timeout=240))
         wdeps = [write_u32(), write_u64(), write_i32(), write_castn(), wr_ptr('write_ptr_' + tag, scalar), hash_version()]
         targets.append(Target(f'tensor_write_{tag}_{rank}', [tensor_write('tensor_write', scalar, rank)] + wdeps, pre, loops=0, unwind=NV_UNWIND, cbmc_flags=CADICAL))
-        if rank == 1:   # exact arithmetic (no product); for rank >= 2 the product is uninterpreted and a counterexample could be spurious
+        if rank <= 2:   # the obligations that pin the repair of the dims validation (they failed before 81b3596); rank 4 is covered by the main target
             targets.append(Target(f'tensor_read_dims_{tag}_{rank}', [tensor_read('tensor_read_dims', scalar, rank)] + deps(), pre, loops=0, unwind=NV_UNWIND, cbmc_flags=CADICAL))
     # the writer without the "dims fit int32" precondition, on the 1-byte scalar instance (a 2 GiB tensor): FAILS (genuine defect)
     targets.append(Target('tensor_write_dims_i8_1', [tensor_write('tensor_write_dims', 'signed char', 1), write_u32(), write_u64(), write_i32(), write_castn(),
@@ -253,7 +302,8 @@ def build(tier):
     return {
         'targets': targets, 'vcs': lemma_vcs(),
         'decided': [
-            'tensor reader (double rank 1/2/4, int64 rank 1; header dims well-formed): never reports good a stream that had failed or is short; accepted => version, rank, sizeof(scalar) '
+            'tensor reader (double rank 1/2/4, int64 rank 1; NO assumption on the header dims since the repair 81b3596): the reader itself rejects a negative dimension and an overflowing '
+            'element / byte count without touching the tensor (resize is reached at most once and only with validated dims); never reports good a stream that had failed or is short; accepted => version, rank, sizeof(scalar) '
             'were checked against the stream, every dim is the stored int32, size = nano::size(dims) >= 0, exactly header + size*sizeof bytes consumed (<= len), the stored hash was compared '
             'equal to hash(content) of exactly the payload slice, the tensor block holds that slice; istream::read always gets a non-negative count and a destination of that many bytes',
             'lemma (SMT, from the proved contracts): every strict prefix of a written tensor stream is rejected; reading a written stream consumes it exactly and yields its dims',
@@ -266,14 +316,18 @@ def build(tier):
             'a complete header of the same or an older version always reaches the parameter list',
             'parameter range readers/writers (src/parameter.cpp, int64 range and pair range): throw unless every field was transferred on a good stream; members <-> wire fields in the same order '
             'in reader and writer (value(s), min, max, minLE, maxLE[, valueLE]); write(string_view): uint32 length + chars',
-            'GENUINE DEFECTS kept as failing obligations: tensor_read_dims_* (reader does not validate dims: a negative dim reaches istream::read as a negative count / is accepted) and '
-            'tensor_write_dims_i8_1 (writer narrows a dimension >= 2^31 to int32 and reports success); both replayed on the real code',
+            'tensor writer (repair c547eaf): a dimension above INT32_MAX => failbit and nothing written; dims that fit are never refused by that guard; no precondition on the magnitude of dims',
+            'lemma (SMT): dims that pass the reader\'s division guard have an exact product <= max_size and every running product fits int64 (ranks 1-4, sizeof 8 and 1)',
+            'tensor_read_dims_* and tensor_write_dims_i8_1 pin the two repaired defects: on the pre-fix library (72b52bf) they fail and replay natively (negative count handed to istream::read; '
+            'header dim -2^31 for a 2^31-element tensor)',
         ],
         'not_decided': [
             'bit-identical predictions of re-read models (object graphs: learners, gboost, wlearners)',
             'detection of altered payload bytes is only as strong as the 64-bit hash: proved is that the comparison is made on exactly the payload, not that collisions are impossible',
             'header corruption is not covered by the hash at all (a corrupted dim of an empty tensor is accepted: format property, shown natively in the replay)',
-            'tensor_read_dims for rank >= 2: the product is uninterpreted there, a counterexample could be spurious; the defect is shown at rank 1 (exact) and natively for rank 2 and 4',
+            'that every VALID header is accepted by the guard (the quotient max_size / dim is uninterpreted in CBMC): a stricter guard (> -> >=) is not noticed',
+            'residual after the repair: nano::size multiplies right-to-left while the guard runs left-to-right; header dims (0, 2^31-1, 2^31-1, 2^31-1) pass the guard and the inner product '
+            'overflows int64 inside detail::product (undefined behaviour by the letter, UBSan reports it; the result is multiplied by 0, size() = 0) -- recorded as an assumption, not an obligation',
             'parameter_t::read / write themselves (variant storage, switch over the type tag, enum/string payloads), double-valued ranges, read(unique_ptr<T>) (factory lookup), '
             'write(vector<T>) (std::any_of + lambda), read(vector<string>), feature / learner / model readers (per-field critical(!read...) pattern only)',
         ],
@@ -282,11 +336,11 @@ def build(tier):
             'std::ostream::write(src, n): failed stream inserts nothing; otherwise appends n bytes or fails (stub nv_ostream_write)',
             'stream content is an arbitrary fixed function offset -> value (1/4/8-byte views unrelated); payload blocks are represented by a ghost content identity, their memory is not modelled',
             'detail::hash(data, n) is a deterministic function of the content of data[0,n) (uninterpreted), 0 for n <= 0 (that clause is proved on the real hash)',
-            'tensor resize(dims): size() becomes nano::size(dims) (uninterpreted for rank >= 2; non-negative when all dims >= 0 and no overflow), throws bad_alloc above 2^47 bytes or at will, '
-            'negative size leaves a null block (release build), success gives a fresh block of size() scalars',
-            'main tensor_read targets assume WELL-FORMED header dims (non-negative, product not overflowing): true of every prefix of a valid stream and of payload-corrupted valid streams; '
-            'the targets tensor_read_dims_* drop it and FAIL (genuine defect: the reader does not validate the dims)',
-            'tensor writer precondition: every dim fits int32 (write_cast<int32_t> narrows silently otherwise), tensor is a live object (dims >= 0, size() scalars at data())',
+            'tensor resize(dims): size() becomes nano::size(dims) (uninterpreted for rank >= 2; the exact product, >= 0, when all dims >= 0 and the product fits int64 -- also if an intermediate '
+            'product of its right-to-left evaluation wraps), throws bad_alloc above 2^47 bytes or at will, negative size leaves a null block (release build), success gives a fresh block of size() scalars',
+            'int64 * and / (non-constant divisor) of the reader are uninterpreted in CBMC (nv_imul / nv_idiv, with x*1, x*0 exact and the divisor asserted non-zero); the one arithmetic fact used '
+            '(guard passed => exact bounded product) is assumed in nv_tensor_resize on the guard loop\'s own terms and proved by the SMT VCs lemma/guard_rank*',
+            'tensor writer precondition: the tensor is a live object (dims >= 0, size() scalars at data())',
             'std::string / std::vector resize(n): throws or holds exactly n elements; containers abstracted to the element at a ghost index',
             'read/write of std::vector<parameter_t> inside configurable_t: throws, fails or consumes >= 8 bytes (stub nv_read_parameters / nv_write_parameters)',
             'nano::major/minor/patch_version are arbitrary constants',
@@ -307,8 +361,10 @@ def replay(rp):
     import re
     import replaylib
     out = {'reproduced': False, 'runs': []}
-    if rp.get('target') == 'tensor_write_dims_i8_1':
+    if rp.get('target', '').startswith('tensor_write'):
+        # (every tensor writer target: the same template; natively only the 1-byte scalar instance is small enough to build)
         # the verifier's dimension if a block of that many bytes can be mapped here (<= 4 GiB), then the smallest one: 2^31
+        out['note'] = 'replayed on tensor_mem_t<int8_t, 1> (same writer template): a rank-1 tensor of that many one-byte scalars'
         exe = replaylib.build_header_only('replay/C15_replay.cpp', 'C15_replay')
         cands = []
         for fo in rp['failed_obligations']:
